@@ -131,6 +131,9 @@ theorem vstack_1d (zero : α) (n : Nat) (a0 : Arr α) (rest : List (Arr α))
     unfold Arr.vstack
     dsimp only
     rw [joinable_validate 0 a0 rest hj, Res.bind_ok, if_pos (by rw [(h a0 List.mem_cons_self).2]; rfl)]
+    have hany : ((a0 :: rest).any (fun a => decide (a.shape ≠ a0.shape))) = false := by
+      rw [List.any_eq_false]; intro b hb; simp [(h b hb).2, (h a0 List.mem_cons_self).2]
+    rw [if_neg (by rw [hany]; simp)]
     simp only [vecInsert, (h a0 List.mem_cons_self).2]
     rw [if_neg (by simp), Res.bind_ok, hc, Res.bind_ok]
     exact reshape_ok _ _ [rest.length + 1, n] (by rw [hF]; simp)
